@@ -442,3 +442,133 @@ def run_atomic(run, P, units=('coap_pdu.c',)):
             return None
         solve(f, Env(), on_event, None, keys, R, key_fn=lambda e: (e.ts.get('enc'), e.ts.get('encvar'), tuple(e.intf(v)[:2] for v in sorted(resvars))), on_branch=on_branch)
     run.require(n >= 2 or run.fixture_mode, 'R-FIXUP(bytes before bookkeeping): fewer than 2 editors that encode an option and grow used_size found')
+
+
+def run_maxopt(run, P, units=('coap_pdu.c',)):
+    """R-FIXUP (running option number): pdu->max_opt is the number of the LAST option in the buffer; appending encodes its delta against it.
+    An editor that takes an option out may lower it only when what it took out was the last option -- structurally: every decrease of
+    max_opt in the codec unit is directly control dependent on the arm on which the look-up of a following option came back empty (false arm of a
+    test of a coap_opt_t pointer).  Lowered because the NUMBER matched, it goes wrong as soon as the highest number occurs twice
+    (Uri-Path, Uri-Query ...): the next append computes its delta from a base that is too small and the new option gets a wrong number."""
+    from core.prog import control_deps
+    run.rule('R-FIXUP')
+    n = 0
+    for f in sorted(P.lib_funcs(), key=lambda f: f['name']):
+        if f['unit'] not in units:
+            continue
+        B = f['B']
+        cd = control_deps(f)
+        for b in f['blocks']:
+            for ev in b['elems']:
+                t = ev['e']
+                if not (t.get('k') == 'asg' and t.get('op') == '-='):
+                    continue
+                l = strip(t['l'])
+                if not (isinstance(l, dict) and l.get('k') == 'mem' and l.get('f') == 'max_opt'):
+                    continue
+                n += 1
+                ok = False
+                for (bb, idx) in cd.get(b['id'], ()):      # the DIRECTLY controlling branch
+                    c = strip((B[bb].get('term') or {}).get('cond'))
+                    neg = False
+                    while isinstance(c, dict) and c.get('k') == 'un' and c.get('op') == '!':
+                        c = strip(c['e'])
+                        neg = not neg
+                    if isinstance(c, dict) and c.get('k') == 'var' and c.get('p') and 'coap_opt_t' in (c.get('t') or c.get('pt') or '') + (c.get('pt') or ''):
+                        empty_arm = 0 if neg else 1
+                        if idx == empty_arm:
+                            ok = True
+                    # `(next = coap_option_next(..))` style conditions
+                    if isinstance(c, dict) and c.get('k') == 'asg' and isinstance(strip(c.get('l')), dict) and strip(c['l']).get('p') and idx == (0 if neg else 1):
+                        ok = True
+                run.instance('R-FIXUP', '%s: max_opt lowered only when the removed option was the last one' % f['name'])
+                run.oblige('R-FIXUP', ok, '%s:max-opt-lowered-for-last-option' % f['name'])
+                if not ok:
+                    run.violation('R-FIXUP', f['name'], ev['loc'], 'max-opt-lowered-without-last-option-test',
+                                  'pdu->max_opt is lowered (%s) at a place that is not controlled by "there is no following option": when the highest option number occurs '
+                                  'more than once the running number drops below the number of the option that is still last, and the next appended option is encoded with '
+                                  'a wrong delta' % short(t)[:50], [])
+    run.require(n >= 1 or run.fixture_mode, 'R-FIXUP(running option number): no decrease of max_opt found in %s' % (units,))
+
+
+def run_rebase(run, P, units=('coap_pdu.c',)):
+    """R-FIXUP (re-basing after a move): a function that moves a PDU's buffer re-points pdu->token at the new block (an assignment to the token
+    field whose right side is built from the result of a reallocating call) and then has to re-base the payload pointer.  Between that
+    assignment and the assignment of pdu->data the old value of pdu->data is a pointer into the block that no longer exists: it is not READ
+    any more -- in particular not in `pdu->data - pdu->token`, which now subtracts a pointer into the new block from one into the old one.
+    The distance has to be taken before the token pointer changes."""
+    from core.psts import Env, solve, relevance, apply_generic
+    run.rule('R-FIXUP')
+    n = 0
+    REALLOC = ('coap_realloc_type', 'realloc')
+    for f in sorted(P.lib_funcs(), key=lambda f: f['name']):
+        if f['unit'] not in units:
+            continue
+        newvars = set()
+        for b, ev in P.events(f):
+            t = ev['e']
+            if t.get('k') == 'asg' and t.get('op') == '=' and ap(t['l']) and any(isinstance(x, dict) and x.get('k') == 'call' and x.get('fn') in REALLOC for x in walk(t['r'])):
+                newvars.add(ap(t['l']))
+        if not newvars:
+            continue
+
+        def fld(x, name):
+            return isinstance(x, dict) and x.get('k') == 'mem' and x.get('f') == name and x.get('rec') == 'coap_pdu_t'
+        moves = [ev for b, ev in P.events(f) if ev['e'].get('k') == 'asg' and ev['e'].get('op') == '=' and fld(strip(ev['e']['l']), 'token') and
+                 any(isinstance(x, dict) and ap(x) in newvars for x in walk(ev['e']['r']))]
+        if not moves:
+            continue
+        name = f['name']
+        n += 1
+        run.instance('R-FIXUP', '%s: the old payload pointer is not read after the token pointer moved' % name)
+
+        def reads_data(t):
+            if t.get('k') == 'asg':
+                parts = [t['r']] + ([t['l']] if t.get('op') != '=' else [])
+                # the left side of a plain assignment is a write; anything it is indexed with is a read
+                return any(fld(x, 'data') for p_ in parts for x in walk(p_))
+            return any(fld(x, 'data') for x in walk(t))
+
+        def is_rule_event(ev):
+            t = ev['e']
+            return any(ev is m for m in moves) or (ev.get('top') and (reads_data(t) or (t.get('k') == 'asg' and fld(strip(t['l']), 'data'))))
+        keys, R = relevance(f, is_rule_event)
+        keys = set(keys)
+        for b in f['blocks']:
+            c = (b.get('term') or {}).get('cond')
+            if c is not None and any(fld(x, 'data') for x in walk(c)):
+                keys.add(b['id'])
+        rep = set()
+
+        def on_event(ev, env, ctx):
+            t = ev['e']
+            if any(ev is m for m in moves):
+                e = apply_generic(ev, env, R).copy()
+                e.ts['moved'] = ev['loc']
+                return [e]
+            if not env.ts.get('moved') or not ev.get('top'):
+                return None
+            if reads_data(t):
+                run.oblige('R-FIXUP', False, '%s:old-data-not-read-after-move' % name)
+                if ev['loc'] not in rep:
+                    rep.add(ev['loc'])
+                    run.violation('R-FIXUP', name, ev['loc'], 'old-payload-pointer-read-after-move',
+                                  'pdu->data is read (%s) after pdu->token was re-pointed at the reallocated block (%s) and before pdu->data itself was re-based: it still points '
+                                  'into the old block, so a distance taken from it now is garbage and the payload pointer is never moved to the new block' %
+                                  (short(t)[:60], env.ts['moved'].rsplit('/', 1)[-1]), ctx.path())
+            if t.get('k') == 'asg' and t.get('op') == '=' and fld(strip(t['l']), 'data'):
+                e = apply_generic(ev, env, R).copy()
+                e.ts['moved'] = None
+                return [e]
+            return None
+
+        def on_branch(b, s, env, ctx):
+            c = (b.get('term') or {}).get('cond')
+            if c is not None and env.ts.get('moved') and any(fld(x, 'data') for x in walk(c)) and b['term'].get('loc') not in rep:
+                rep.add(b['term'].get('loc'))
+                run.oblige('R-FIXUP', False, '%s:old-data-not-read-after-move' % name)
+                run.violation('R-FIXUP', name, b['term'].get('loc'), 'old-payload-pointer-read-after-move',
+                              'pdu->data is tested after pdu->token was re-pointed at the reallocated block and before pdu->data was re-based', ctx.path())
+            return env
+        solve(f, Env(), on_event, None, keys, R, key_fn=lambda e: e.ts.get('moved'), on_branch=on_branch)
+    run.require(n >= 1 or run.fixture_mode, 'R-FIXUP(re-basing): no function that re-points pdu->token at a reallocated block found in %s' % (units,))
